@@ -112,6 +112,10 @@ def run(check, prog):
     from . import c02 as _c02f
     _c02f.status_examined(check, prog)
     _c02f.work_arrays_defined(check, prog)
+    # the reference wave is the polarisation that was passed: a theory written
+    # for one polarisation refuses every other (rule shared with C05)
+    from . import c05 as _c05p
+    _c05p.pin_exact(check, prog)
 
 
 # ----------------------------------------------------------------------
